@@ -429,7 +429,7 @@ let make_m1 (params : string list) : machine =
   let out_of_contract (o : op) : bool =
     not (in_contractb !st o) && (match m_step !st o with (_, XErr) -> false | _ -> true) in
   (* the physical deletion (PruneAlgo.prune_forest) under a flush schedule; updates [rk] *)
-  let phys_prune (n : string) (sched : bool list) : string * string =
+  let phys_prune ?(check_disks = false) (n : string) (sched : bool list) : string * string =
     let pre = !st in
     let s', x = m_step pre (OPrune (z_of_string n)) in
     match prune_forest_sha true !rk pre.forest sched (z_of_string n), x with
@@ -437,12 +437,18 @@ let make_m1 (params : string list) : machine =
         st := s';
         let r' = rekeyed disk in
         let ok = (disk = phys_of r' s'.forest) in
+        (* the conclusion of the safety theorem evaluated on this run: every state the disk goes
+           through lets every retained version load back node for node *)
+        let safe = not check_disks || (match prune_forest_disks_sha true !rk pre.forest sched (z_of_string n) with
+                    | POk disks -> List.for_all (fun d -> readable_sha d s'.forest) disks
+                    | _ -> false) in
         rk := r';
         let kstr (v, n) = Printf.sprintf "%d.%d" (int_of_z v) (int_of_z n) in
         let ops = List.filter_map (function
             | WSet (KNode k, _) -> Some ("s" ^ kstr k) | WDel (KNode k) -> Some ("d" ^ kstr k) | _ -> None) log in
         let rec nat_to_int = function O -> 0 | S m -> 1 + nat_to_int m in
         if not ok then ("modelfail:physical store differs from phys_of", "")
+        else if not safe then ("modelfail:a retained version is unreadable in an intermediate disk state", "")
         else ("ok", Printf.sprintf "ops=%s;fl=%s" (String.concat "," ops)
                       (String.concat "," (List.map (fun i -> string_of_int (nat_to_int i)) fls)))
     | PErr, XErr -> st := s'; ("err", "ops=;fl=")
@@ -450,6 +456,50 @@ let make_m1 (params : string list) : machine =
     | PErr, _ -> ("modelfail:physical deletion fails", "")
     | PNoVersion, _ -> ("modelfail:physical deletion: version missing", "")
     | PFuel, _ -> ("modelfail:physical deletion: out of fuel", "") in
+  (* the fast-index life cycle (FastLife.fstep) runs alongside: the persisted index with entry
+     versions and the label are compared by "audit fast" in every state, index enabled or not *)
+  let fs : fstate ref =
+    ref (fst (fstep_sha (if iv = "-" then finit Z0 false else finit (z_of_string iv) true) (FOpen (not !fast)))) in
+  let fdo (o : fop) : out = let s', x = fstep_sha !fs o in fs := s'; x in
+  let rec fmirror (toks : string list) : unit =
+    match toks with
+    | ("crash" | "fault") :: "cold" :: _ -> ()
+    | ("crash" | "fault") :: rest -> fmirror rest
+    | [ "set"; k; v ] -> ignore (fdo (FSet (bytes_of_tok k, bytes_of_tok v)))
+    | [ "rm"; k ] -> ignore (fdo (FRemove (bytes_of_tok k)))
+    | [ "save" ] | [ "wsave" ] -> ignore (fdo FSave)
+    | [ "rollback" ] -> ignore (fdo FRollback)
+    | [ "reopen" ] | [ "reopen"; _ ] -> ignore (fdo (FOpen (not !fast)))
+    | [ "reopenat"; v; _ ] ->
+        (match fdo (FOpen (not !fast)) with
+         | XOk -> ignore (fdo (FLoad (z_of_string v)))
+         | _ -> ())
+    | [ "load"; v ] -> ignore (fdo (FLoad (z_of_string v)))
+    | [ "lvfo"; v ] -> ignore (fdo (FLvfo (z_of_string v)))
+    | [ ("prune" | "wprune"); n ] -> ignore (fdo (FPrune (z_of_string n)))
+    | [ "savecs"; pairs ] ->
+        let dirty = (match !fs.ms.root with Some t -> int_of_z (node_meta t).ver = 0 | None -> false) in
+        if not dirty then begin
+          let ps = if pairs = "." then [] else String.split_on_char ',' pairs in
+          let ok = ref true in
+          List.iter (fun p ->
+              if !ok then begin
+                let n = String.length p in
+                if n > 0 && p.[n - 1] = '-' then
+                  (match fdo (FRemove (bytes_of_tok (String.sub p 0 (n - 1)))) with
+                   | XPair (_, XBool true) -> () | _ -> ok := false)
+                else
+                  (match String.split_on_char '=' p with
+                   | [ k; v ] -> ignore (fdo (FSet (bytes_of_tok k, bytes_of_tok (if v = "" then "." else v))))
+                   | _ -> ())
+              end) ps;
+          if !ok then ignore (fdo FSave)
+        end
+    | _ -> () in
+  let show_fast () : string =
+    let lbl = (match !fs.dlabel with None -> "1.0.0" | Some v -> Printf.sprintf "1.1.0-%d" (int_of_z v)) in
+    Printf.sprintf "af(%s;[%s])" lbl
+      (String.concat "," (List.map (fun (k, (u, v)) -> Printf.sprintf "%s=%s@%d" (hex_of_bytes k) (hex_of_bytes v) (int_of_z u)) !fs.fidx)) in
   let rec step1 (toks : string list) : string =
         match toks with
         | [ ("prune" | "lvfo" | "wprune") as o; n ]
@@ -540,13 +590,13 @@ let make_m1 (params : string list) : machine =
                  with Not_found | Failure _ -> []) in
               let m = List.fold_left max (-1) fl in
               let sched = List.init (m + 1) (fun i -> List.mem i fl) in
-              match phys_prune n sched with
+              match phys_prune ~check_disks:true n sched with
               | (("ok" | "err") as r, body) -> "wp(" ^ r ^ ";" ^ body ^ ")"
               | (bad, _) -> bad
             end
         | [ "audit"; "nodes" ] -> expected_nodes !st
         | [ "audit"; "raw" ] -> expected_nodes !st
-        | [ "audit"; "fast" ] -> if !fast then expected_fast !st else "*"
+        | [ "audit"; "fast" ] -> show_fast ()
         | [ "reopen"; f ] when (f = "fast=true" || f = "fast=false") && (fast := (f = "fast=true"); false) -> ""
         | [ "r"; t; "export" ] ->
             (* post-order stream of (key, value | -, node version, height) *)
@@ -611,7 +661,12 @@ let make_m1 (params : string list) : machine =
             let s', x = m_step !st o in
             st := s';
             show_out x in
-  { step = (fun toks -> prev := !st; step1 toks);
+  { step = (fun toks ->
+        prev := !st;
+        let r = step1 toks in
+        (* out-of-contract operations raise above; a failed model step changes nothing below *)
+        fmirror toks;
+        r);
     classify = (fun toks model impl ->
         match toks with
         | [ "r"; t; "proof"; k ] ->
